@@ -49,8 +49,10 @@ Proof. unfold rstrip. rewrite rev_involutive, lstrip_idem. reflexivity. Qed.
 Lemma rstrip_snoc D : rstrip [c_slash] (D ++ [c_slash]) = rstrip [c_slash] D.
 Proof. unfold rstrip. rewrite rev_app_distr. reflexivity. Qed.
 
-Lemma pathlike_rstrip p : pathlike (rstrip [c_slash] p) = pathlike p.
-Proof. unfold pathlike. rewrite rstrip_idem. reflexivity. Qed.
+Lemma pathlike_rstrip p : nonempty (rstrip [c_slash] p) = true -> pathlike (rstrip [c_slash] p) = pathlike p.
+Proof.
+  intro H. unfold pathlike, strip_target. rewrite rstrip_idem, H. cbn [negb]. rewrite !andb_false_r. reflexivity.
+Qed.
 
 Section C09.
   Variable resolve1 : str -> str.
@@ -141,10 +143,10 @@ Section C09.
   Qed.
 
   (* ---- confinement: a rule D/** only matches targets whose normal form lies under nf D ---- *)
-  Lemma nrp_dir cwd D : pathlike D = true -> no_glob D = true ->
+  Lemma nrp_dir cwd D : nonempty (rstrip [c_slash] D) = true -> pathlike D = true -> no_glob D = true ->
     nrp cwd (D ++ slash_star2) = nf home cwd D ++ slash_star2.
   Proof.
-    intros Hp Hg. unfold normalize_redirect_pattern.
+    intros Hn0 Hp Hg. unfold normalize_redirect_pattern.
     replace (D ++ slash_star2) with ((D ++ [c_slash]) ++ star2 ++ []) by (rewrite <- app_assoc; reflexivity).
     assert (Hs : mem_ch c_star (D ++ [c_slash]) = false).
     { rewrite mem_ch_app, (no_glob_no_star _ Hg). reflexivity. }
@@ -153,20 +155,20 @@ Section C09.
     rewrite skipn_app, Nat.sub_diag, skipn_all. cbn [skipn app].
     rewrite rstrip_snoc.
     assert (Hne : rstrip [c_slash] D <> []).
-    { unfold pathlike in Hp. apply andb_true_iff in Hp. destruct Hp as [Hp _]. destruct (rstrip [c_slash] D); [discriminate|discriminate]. }
+    { destruct (rstrip [c_slash] D); [discriminate|discriminate]. }
     destruct (rstrip [c_slash] D) as [|x t] eqn:E; [congruence|]. rewrite <- E.
-    rewrite (normalize_path_nf _ _ _ lex) by (rewrite pathlike_rstrip; exact Hp).
+    rewrite (normalize_path_nf _ _ _ lex) by (rewrite pathlike_rstrip; [exact Hp|rewrite E; reflexivity]).
     destruct (rstrip_split D) as [l [E1 E2]]. rewrite E1 at 2.
     rewrite nf_strip by (auto; rewrite E; discriminate). reflexivity.
   Qed.
 
   Lemma confine cwd D r t :
-    r_pat r = D ++ slash_star2 -> pathlike D = true -> no_glob D = true ->
+    r_pat r = D ++ slash_star2 -> nonempty (rstrip [c_slash] D) = true -> pathlike D = true -> no_glob D = true ->
     no_glob (nf home cwd D) = true -> pathlike t = true ->
     rr_matches cwd t r = true ->
     exists rest, nf home cwd t = nf home cwd D ++ c_slash :: rest.
   Proof.
-    intros Hr Hp Hg Hgn Ht. unfold redirect_rule_matches, redirect_rule_result.
+    intros Hr Hn0 Hp Hg Hgn Ht. unfold redirect_rule_matches, redirect_rule_result.
     rewrite Hr, nrp_dir by assumption. rewrite (normalize_path_nf _ _ _ lex) by assumption.
     intro H. apply glob_match_dir; [exact Hgn|].
     destruct (glob_match (nf home cwd t) (nf home cwd D ++ slash_star2)) as [[|]|]; try discriminate. reflexivity.
@@ -198,18 +200,30 @@ Lemma glob_cwd_words :
   match_words lex1 lex2 $"/home/u" [] [rule_danger] $"/w/proj1" false [$"./danger"; $"x"] = Some rule_danger.
 Proof. split; vm_compute; reflexivity. Qed.
 
-(* a redirect target containing "://" is classified as a URL and not resolved: the spelling
-   t/u://../../x of t/u:/../../x = /x escapes the directory granted by /t/** *)
+(* since 67c5613 a redirect target containing "://" is resolved like any other file name: the
+   spelling /t/u://../../etc/passwd of /etc/passwd is no longer granted by /t/** ... *)
 Definition rule_t : rule := mkRule Allow $"/t/**" None false [].
-Lemma url_target_escapes :
-  match_redirect lex1 lex2 $"/home/u" [rule_t] $"/w" $"/t/u://../../etc/passwd" = Some rule_t /\
-  nf $"/home/u" $"/w" $"/t/u://../../etc/passwd" = $"/etc/passwd" /\
-  match_redirect lex1 lex2 $"/home/u" [rule_t] $"/w" $"/t/u:/../../etc/passwd" = None.
+Lemma url_target_resolved :
+  match_redirect lex1 lex2 $"/home/u" [rule_t] $"/w" $"/t/u://../../etc/passwd" = None /\
+  match_redirect lex1 lex2 $"/home/u" [rule_t] $"/w" $"/t/u:/../../etc/passwd" = None /\
+  match_redirect lex1 lex2 $"/home/u" [rule_t] $"/w" $"/t/u://x" = Some rule_t /\
+  pathlike $"/t/u://../../etc/passwd" = true.
+Proof. repeat split; vm_compute; reflexivity. Qed.
+(* ... and "/" is the root, like "/." *)
+Definition rule_dot : rule := mkRule Allow $"." None false [].
+Lemma root_target_is_root :
+  match_redirect lex1 lex2 $"/home/u" [rule_dot] $"/w" $"/" = None /\
+  match_redirect lex1 lex2 $"/home/u" [rule_dot] $"/w" $"/." = None /\
+  normalize_path lex1 lex2 $"/home/u" $"/w" $"//" = $"/" /\ pathlike $"/" = true /\ pathlike [] = true.
 Proof. repeat split; vm_compute; reflexivity. Qed.
 
-(* the target "/" is normalised to the working directory (rstrip leaves the empty string) *)
-Definition rule_dot : rule := mkRule Allow $"." None false [].
-Lemma root_target_is_cwd :
-  match_redirect lex1 lex2 $"/home/u" [rule_dot] $"/w" $"/" = Some rule_dot /\
-  match_redirect lex1 lex2 $"/home/u" [rule_dot] $"/w" $"/." = None.
+(* Legacy: the behaviour before the repair, kept so that its reappearance is recognised *)
+Lemma legacy_url_target :
+  legacy_normalize_path lex1 lex2 $"/home/u" $"/w" $"/t/u://../../etc/passwd" = $"/t/u://../../etc/passwd" /\
+  nf $"/home/u" $"/w" $"/t/u://../../etc/passwd" = $"/etc/passwd" /\
+  glob_match $"/t/u://../../etc/passwd" $"/t/**" = G2 true.
+Proof. repeat split; vm_compute; reflexivity. Qed.
+Lemma legacy_root_target :
+  legacy_normalize_path lex1 lex2 $"/home/u" $"/w" $"/" = $"/w" /\
+  legacy_normalize_path lex1 lex2 $"/home/u" $"/w" $"/." = $"/".
 Proof. split; vm_compute; reflexivity. Qed.
